@@ -117,7 +117,7 @@ func runStress(r *ev.Run, seed int64, opsPerClient, tables int) {
 			for k := 0; k < opsPerClient; k++ {
 				tbl := fmt.Sprintf("t%d", rng.Intn(tables))
 				kind := rng.Intn(3)
-				doCall(mgrs[i], cls[i], kind, tbl)
+				doCall(mgrs[i], cls[i], kind, tbl, leaseKey(tbl))
 				done.Add(1)
 			}
 		}(i)
